@@ -171,3 +171,32 @@ func init() {
 	vHarness["VerifC09_LCPReceive"] = VerifC09_LCPReceive
 	vHarness["VerifC11_LCPStep"] = VerifC11_LCPStep
 }
+
+// Renegotiation always leaves Opened: an Opened automaton receives a Configure-Request, is brought back to Opened
+// by the peer's Ack of our new request, and then receives the byte-identical Configure-Request again (same
+// identifier, same options - a peer restarting its negotiation may well reuse both): it must leave Opened again.
+func VerifC11_LCPRepeatedRequest() {
+	m, sent := verifLCPAny("m")
+	vAssume(m.state == LCPStateOpened)
+	req := vInput("req")
+	vAssume(len(req) >= 4 && req[0] == LCPCodeConfigRequest)
+	_ = m.ReceivePacket(req)
+	vAssume(m.state == LCPStateAckSent) // we acked it and sent a new request of our own
+	// the peer acks our latest request verbatim
+	var ours []byte
+	for _, raw := range sent.pkts {
+		if len(raw) >= 4 && raw[0] == LCPCodeConfigRequest {
+			ours = raw
+		}
+	}
+	vAssume(ours != nil)
+	ack := append([]byte(nil), ours...)
+	ack[0] = LCPCodeConfigAck
+	_ = m.ReceivePacket(ack)
+	vAssume(m.state == LCPStateOpened)
+	_ = m.ReceivePacket(req)
+	vAssert(m.state != LCPStateOpened, "a Configure-Request received in Opened (renegotiation) did not leave the opened state")
+	vReach("end")
+}
+
+func init() { vHarness["VerifC11_LCPRepeatedRequest"] = VerifC11_LCPRepeatedRequest }
